@@ -1094,3 +1094,68 @@ fn native_exd_damaged_nopanic() {
     { let pb = pb.clone(); let f = move |b: &[u8]| { if let (Some(h), Some(p)) = (EXH::from_existing(b), EXD::from_existing(&pb)) { for id in [1u32, 2, 3, 4] { let _ = p.read_row(&h, id); } } }; s.sweep(&hb, 1 << 20, 1, &f); }
     s.finish("native_exd_damaged_nopanic");
 }
+
+// ---- a synthetic archive holding sheets (minimal copies of the index / standard-entry packers of the gamedata and dat units, so that this file stands alone) ----
+fn nexa_jamcrc(bytes: &[u8]) -> u32 { let mut c: u32 = 0xFFFF_FFFF; for b in bytes { c ^= *b as u32; for _ in 0..8 { c = if c & 1 == 1 { (c >> 1) ^ 0xEDB8_8320 } else { c >> 1 }; } } c }
+fn nexa_entry(content: &[u8]) -> Vec<u8> {
+    let mut b = vec![]; b.extend_from_slice(&16u32.to_le_bytes()); b.extend_from_slice(&0u32.to_le_bytes()); b.extend_from_slice(&32000i32.to_le_bytes()); b.extend_from_slice(&(content.len() as i32).to_le_bytes()); b.extend_from_slice(content);
+    while b.len() % 128 != 0 { b.push(0); }
+    let mut info = vec![]; info.extend_from_slice(&0u32.to_le_bytes()); info.extend_from_slice(&2i32.to_le_bytes()); info.extend_from_slice(&(content.len() as u32).to_le_bytes()); info.extend_from_slice(&[0u8; 8]); info.extend_from_slice(&1u32.to_le_bytes());
+    info.extend_from_slice(&0i32.to_le_bytes()); info.extend_from_slice(&(b.len() as u16).to_le_bytes()); info.extend_from_slice(&(content.len() as u16).to_le_bytes());
+    while info.len() % 128 != 0 { info.push(0); }
+    let n = info.len() as u32; info[0..4].copy_from_slice(&n.to_le_bytes()); info.extend_from_slice(&b); info
+}
+fn nexa_archive(dir: &std::path::Path, files: &[(String, Vec<u8>)]) {
+    std::fs::create_dir_all(dir.join("sqpack/ffxiv")).unwrap();
+    std::fs::write(dir.join("ffxivgame.ver"), "2023.09.28.0000.0000").unwrap();
+    let mut dat = vec![0xEEu8; 0x800]; let mut idx = vec![0u8; 2048 + files.len() * 16];
+    idx[0..8].copy_from_slice(b"SqPack\0\0"); idx[12..16].copy_from_slice(&1024u32.to_le_bytes()); idx[16..20].copy_from_slice(&1u32.to_le_bytes()); idx[20..24].copy_from_slice(&2u32.to_le_bytes()); idx[32] = 0xFF; idx[33] = 0xFF;
+    idx[1024..1028].copy_from_slice(&1024u32.to_le_bytes()); idx[1028..1032].copy_from_slice(&1u32.to_le_bytes()); idx[1032..1036].copy_from_slice(&2048u32.to_le_bytes()); idx[1036..1040].copy_from_slice(&((files.len() * 16) as u32).to_le_bytes());
+    for (i, (path, content)) in files.iter().enumerate() {
+        let off = dat.len() as u64; dat.extend_from_slice(&nexa_entry(content)); dat.extend_from_slice(&[0u8; 128]);
+        let (folder, file) = path.rsplit_once('/').unwrap(); let at = 2048 + i * 16;
+        idx[at..at + 4].copy_from_slice(&nexa_jamcrc(file.as_bytes()).to_le_bytes()); idx[at + 4..at + 8].copy_from_slice(&nexa_jamcrc(folder.as_bytes()).to_le_bytes()); idx[at + 8..at + 12].copy_from_slice(&(((off / 128) as u32) << 4).to_le_bytes());
+    }
+    std::fs::write(dir.join("sqpack/ffxiv/0a0000.win32.index"), idx).unwrap();
+    std::fs::write(dir.join("sqpack/ffxiv/0a0000.win32.dat0"), dat).unwrap();
+}
+
+//@unit props=C05 label=B tier=quick native=1 fn=gamedata::GameData::{read_excel_sheet_header,read_excel_sheet,get_all_sheet_names},exd::EXD::calculate_filename bound="by execution on a temporary installation: a root list with 3 sheets (one of them not stored), a language-neutral sheet with 2 pages and an English/Japanese sheet, headers and pages stored under the names the root list, header and language imply"
+//@desc the root list names the sheets; a sheet's header is found under exd/<lower-cased name>.exh, its pages under exd/<name>_<start id>[_<language code>].exd; rows read from the located page hold the stored values; a sheet that is not listed, or listed but not stored, yields nothing
+#[test]
+fn native_excel_in_archive() {
+    use crate::gamedata::GameData; use crate::common::{Language, Platform};
+    let root = std::env::temp_dir().join(format!("physis-verif-c05g-{}", std::process::id()));
+    let _ = std::fs::remove_dir_all(&root);
+    let game = root.join("game");
+    let files: Vec<(String, Vec<u8>)> = vec![
+        ("exd/root.exl".to_string(), b"EXLT,2\nAchievement,209\nItemAction,-1\nquest/Missing,5".to_vec()),
+        ("exd/achievement.exh".to_string(), nex_exh(40, &nex_columns(), &[(0, 3), (500, 2)], &[0])),
+        ("exd/achievement_0.exd".to_string(), nex_exd(&[(0, 1), (1, 2), (2, 1)])),
+        ("exd/achievement_500.exd".to_string(), nex_exd(&[(500, 1), (501, 3)])),
+        ("exd/itemaction.exh".to_string(), nex_exh(40, &nex_columns(), &[(10, 2)], &[2, 1])),
+        ("exd/itemaction_10_en.exd".to_string(), nex_exd(&[(10, 1), (11, 1)])),
+        ("exd/itemaction_10_ja.exd".to_string(), nex_exd(&[(10, 2), (11, 2)])),
+    ];
+    nexa_archive(&game, &files);
+    let mut gd = GameData::from_existing(Platform::Win32, game.to_str().unwrap()).expect("installation opens");
+    assert_eq!(gd.get_all_sheet_names(), Some(vec!["Achievement".to_string(), "ItemAction".to_string(), "quest/Missing".to_string()]), "sheet names from the root list");
+    let mut cases = 0u64;
+    let a = gd.read_excel_sheet_header("Achievement").expect("header of a listed sheet");
+    assert_eq!((a.pages.len(), a.pages[1].start_id, a.column_definitions.len()), (2, 500, 20));
+    for (page, rows) in [(0usize, vec![(0u32, 1u32), (1, 2), (2, 1)]), (1, vec![(500, 1), (501, 3)])] {
+        let exd = gd.read_excel_sheet("Achievement", &a, Language::None, page).expect("page located by <name>_<start id>.exd");
+        for (id, n) in rows { let got = exd.read_row(&a, id).expect("stored row"); assert_eq!(got.len() as u32, n); for (sub, r) in got.iter().enumerate() { nex_check_row(r, id, sub as u32); } cases += 1; }
+        assert!(exd.read_row(&a, 77).is_none());
+    }
+    let i = gd.read_excel_sheet_header("ItemAction").expect("header of the second sheet");
+    for (lang, subs) in [(Language::English, 1u32), (Language::Japanese, 2)] {
+        let exd = gd.read_excel_sheet("ItemAction", &i, lang, 0).expect("page located by <name>_<start id>_<language code>.exd");
+        for id in [10u32, 11] { let got = exd.read_row(&i, id).expect("stored row"); assert_eq!(got.len() as u32, subs, "the page of the requested language is read"); nex_check_row(&got[0], id, 0); cases += 1; }
+    }
+    assert!(gd.read_excel_sheet("ItemAction", &i, Language::German, 0).is_none(), "a language that is not stored yields nothing");
+    assert!(gd.read_excel_sheet_header("quest/Missing").is_none(), "listed but not stored");
+    assert!(gd.read_excel_sheet_header("NotListed").is_none() && gd.read_excel_sheet_header("achievement").is_none(), "not listed (names are matched as listed)");
+    let _ = std::fs::remove_dir_all(&root);
+    println!("NATIVE native_excel_in_archive cases={cases}");
+}
